@@ -9,6 +9,8 @@ use std::process::Command;
 
 const BIN: &str = "/verif/build/dlint/release/examples/dlint";
 
+// (files importing one absolute URL, among them a `deps.ts`: no-external-import judges an import by the file it stands in)
+const URL_IMPORTS: &[&str] = &["import x from \"https://example.com/x.ts\";\nexport default x;\n", "import { y } from \"https://example.com/y.ts\";\nimport x from \"https://example.com/x.ts\";\nexport const z = [x, y];\n"];
 const LINTY: &[&str] = &["debugger;\n", "var a = 1;\nconsole.log(a == 2);\n", "if (x) {}\n", "let y: any = 1;\nexport default y;\n", "eval('x');\n"];
 const CLEAN: &[&str] = &["export const a = 1;\n", "export function f(): number { return 1; }\n", "// nothing\n"];
 const RECOVERABLE: &[&str] = &["class A { abstract foo(): void; }\nexport default A;\n", "export function f(a?: number = 1) { return a; }\n", "class B { constructor(){} constructor(){} }\nexport default B;\n"];
@@ -42,13 +44,13 @@ pub fn run_all(args: &Args) {
       crng.range(1, 9)
     };
     let mut files: Vec<String> = vec![];
-    let with_fatal = crng.chance(1, 8);
+    let with_fatal = case_no % 5 == 1 || crng.chance(1, 10);
     let mut expected = 0usize;
     let rule_mode = crng.below(3); // 0 recommended, 1 --rule X, 2 --config
-    let rule_name = ["no-debugger", "eqeqeq", "no-explicit-any"][crng.below(3)];
+    let rule_name = ["no-debugger", "eqeqeq", "no-explicit-any", "no-external-import"][crng.below(4)];
     // --config: tags, an include list and an exclude list in a drawn order; the reference selection is computed here by
     // set algebra (tagged or included, and not excluded), not by the function under test
-    let pool = ["eqeqeq", "no-var", "no-explicit-any", "no-eval", "no-console", "prefer-const", "no-debugger", "no-empty", "camelcase", "ban-untagged-todo"];
+    let pool = ["eqeqeq", "no-var", "no-explicit-any", "no-eval", "no-console", "prefer-const", "no-debugger", "no-empty", "camelcase", "ban-untagged-todo", "no-external-import", "no-external-import"];
     let mut cfg_include: Vec<String> = vec![];
     let mut cfg_exclude: Vec<String> = vec![];
     let cfg_tags: Vec<String> = if crng.chance(2, 3) { vec!["recommended".to_string()] } else { vec![] };
@@ -99,13 +101,19 @@ pub fn run_all(args: &Args) {
           },
           "single-finding",
         ),
+        0..=3 if rule_name == "no-external-import" || (rule_mode == 2 && cfg_include.iter().any(|c| c == "no-external-import")) => (URL_IMPORTS[crng.below(URL_IMPORTS.len())], "url-imports"),
         0..=3 => (LINTY[crng.below(LINTY.len())], "linty"),
         4..=5 => (CLEAN[crng.below(CLEAN.len())], "clean"),
         6..=8 => (RECOVERABLE[crng.below(RECOVERABLE.len())], "recoverable"),
         _ => (CLEAN[0], "clean"),
       };
       // names chosen so that argument order != path order
-      let name = format!("{}{}.ts", ["z", "a", "m", "B", "_", "k"][crng.below(6)], i);
+      let name = if k == "url-imports" && !files.iter().any(|f: &String| f == "deps.ts") && crng.chance(1, 2) {
+        out.count("file=deps.ts");
+        "deps.ts".to_string()
+      } else {
+        format!("{}{}.ts", ["z", "a", "m", "B", "_", "k"][crng.below(6)], i)
+      };
       std::fs::write(format!("{}/{}", dir, name), body).unwrap();
       out.count(&format!("file={}", k));
       // in-process reference
@@ -161,7 +169,7 @@ pub fn run_all(args: &Args) {
     // the least path, whatever the schedule (repair 4da0839)
     let mut fatal_names: Vec<String> = vec![];
     if with_fatal {
-      let k = crng.range(1, 3);
+      let k = if case_no % 10 == 1 { crng.range(2, 3) } else { crng.range(1, 3) };
       for j in 0..k {
         let name = format!("{}{}_{}.ts", ["q", "A", "zz", "b"][crng.below(4)], n, j);
         if crng.chance(1, 4) {
